@@ -665,6 +665,17 @@ def _eval_events(node: ast.AST, stop: ast.AST):
         elif isinstance(e, ast.FormattedValue):
             go(e.value)
             go(e.format_spec)
+        elif isinstance(e, (ast.ListComp, ast.SetComp, ast.GeneratorExp, ast.DictComp)):
+            # evaluation order inside a comprehension, approximated: iterable, conditions, element (per generator)
+            for g in e.generators:
+                go(g.iter)
+                for c in g.ifs:
+                    go(c)
+            if isinstance(e, ast.DictComp):
+                go(e.key)
+                go(e.value)
+            else:
+                go(e.elt)
         elif isinstance(e, ast.Starred):
             go(e.value)
         elif isinstance(e, ast.Slice):
@@ -721,7 +732,7 @@ def _replace_in(root: ast.AST, target: ast.AST, new: ast.AST) -> bool:
 
 
 _PURE_STATIC = {"int.from_bytes", "int.to_bytes", "bytes.fromhex", "struct.pack", "struct.unpack", "struct.unpack_from", "struct.calcsize",
-                "math.ceil", "math.floor", "math.log", "math.log2", "math.pow", "math.sqrt", "re.sub", "re.match", "re.search", "re.fullmatch", "re.compile"}
+                "math.ceil", "math.floor", "math.log", "math.log2", "math.pow", "math.sqrt", "time.time", "time.monotonic", "re.sub", "re.match", "re.search", "re.fullmatch", "re.compile"}
 
 
 _PURE_SELF_METHODS: set = set()          # per module: methods that store nothing and call nothing harmful (set by canonicalise)
@@ -807,6 +818,36 @@ def _self_writes(tree: ast.Module) -> dict:
     return out
 
 
+_INIT_ONLY_ATTRS: set = set()          # per module: attribute names stored nowhere but in methods called __init__
+
+
+def _init_only_attrs(tree: ast.Module) -> set:
+    """Attribute names that the module stores only inside `__init__` methods (never re-bound after construction, no setattr
+    with a computed name anywhere): a read of such a field gives the same object whenever it happens."""
+    global _INIT_ONLY_ATTRS
+    if any(isinstance(x, ast.Call) and isinstance(x.func, ast.Name) and x.func.id in ("setattr", "delattr") and not (len(x.args) >= 2 and isinstance(x.args[1], ast.Constant))
+           for x in ast.walk(tree)):
+        _INIT_ONLY_ATTRS = set()
+        return _INIT_ONLY_ATTRS
+    in_init, elsewhere = set(), set()
+    for fn in [n for n in ast.walk(tree) if isinstance(n, ast.FunctionDef)]:
+        tgt = in_init if fn.name == "__init__" else elsewhere
+        for x in ast.walk(fn):
+            if isinstance(x, ast.Attribute) and isinstance(x.ctx, (ast.Store, ast.Del)):
+                tgt.add(x.attr)
+            if isinstance(x, ast.Call) and isinstance(x.func, ast.Name) and x.func.id in ("setattr", "delattr") and len(x.args) >= 2 and isinstance(x.args[1], ast.Constant):
+                tgt.add(x.args[1].value)
+    for x in tree.body:
+        for y in ast.walk(x) if not isinstance(x, (ast.FunctionDef, ast.ClassDef)) else []:
+            if isinstance(y, ast.Attribute) and isinstance(y.ctx, (ast.Store, ast.Del)):
+                elsewhere.add(y.attr)
+    _INIT_ONLY_ATTRS = in_init - elsewhere
+    return _INIT_ONLY_ATTRS
+
+
+_HARMLESS_BUILTINS = {"next", "any", "all", "sum", "enumerate", "zip", "reversed", "iter", "set", "frozenset", "dict", "list", "bytearray", "print", "id", "type", "ord", "chr"}
+
+
 def _harmful_calls(e: ast.AST, attrs=None):
     """Calls that may change state the caller cannot see from here or that may block while another thread changes it: everything
     but pure built-ins, the static functions of _PURE_STATIC and read-only methods (_PURE_METHODS) on a plain local name."""
@@ -815,6 +856,8 @@ def _harmful_calls(e: ast.AST, attrs=None):
         if not isinstance(x, ast.Call):
             continue
         f = x.func
+        if isinstance(f, ast.Name) and f.id in _HARMLESS_BUILTINS:
+            continue
         if isinstance(f, ast.Name) and "::" + f.id in _PURE_SELF_METHODS:
             continue                    # a module-level function that stores nothing and calls nothing harmful
         if isinstance(f, ast.Name) and (f.id in _PURE_BUILTINS or f.id in ("hasattr", "getattr", "repr", "format", "pretty_index") or f.id.endswith(("Error", "Exception", "Warning"))):
@@ -843,6 +886,8 @@ def _harm_before_use(span, uses, attrs=None) -> bool:
     evaluated?  Units (simple statements, tests of if/while, iterables of for) are taken in source order, which for code
     without loops contains every execution order; two units in opposite branches of one if cannot follow each other; a loop
     that contains a use must not contain a harmful call at all."""
+    if attrs is not None and attrs and set(attrs) <= _INIT_ONLY_ATTRS:
+        return False            # fields bound once, in the constructor: no call can re-bind them
     units = []          # (scope node, path) in source order; path = tuple of (id(if-node), branch) entries
 
     def rec(stmts, path, in_loop):
@@ -1899,7 +1944,12 @@ def canonicalise(tree: ast.Module, rel: str = "") -> ast.Module:
     if ref is not None:
         from . import canon
         canon.inline_fresh_structs(tree, ref)
-        canon.inline_fresh_constants(tree, ref)
+        for _k in range(3):
+            before_c = ast.dump(tree)
+            canon.inline_fresh_constants(tree, ref)
+            tree = _Canonical().visit(tree)          # folds what the inlined literals make constant (A = 1; B = A | 2)
+            if ast.dump(tree) == before_c:
+                break
         canon.rename_fresh_members(tree, ref)
         canon.unroll_fresh_generators(tree, ref)
         tree = _Canonical().visit(tree)
@@ -1909,6 +1959,7 @@ def canonicalise(tree: ast.Module, rel: str = "") -> ast.Module:
     ctor = _ctor_fields(tree) if ref is not None else {}
     _pure_self_methods(tree)
     _self_writes(tree)
+    _init_only_attrs(tree)
     if names or ref is not None:
         def walk(node, prefix):
             for n in getattr(node, "body", []):
@@ -1939,6 +1990,7 @@ def canonicalise(tree: ast.Module, rel: str = "") -> ast.Module:
                             canon.sink_tail_into_branches(n, rf)
                             canon.sink_use_into_branches(n, rf, known)
                             canon.enumerate_to_counter(n, rf, known)
+                            canon.dict_iteration_forms(n, rf)
                             canon.hoist_common_tail(n, rf)
                             canon.normalise_control_flow(n, rf.get("tests", []), rf.get("forms", {}))
                             canon.adopt_reference_tests(n, rf)
